@@ -85,8 +85,21 @@ class Source:
         return self.events.pop(0)
 
 
+class BareSource:
+    """The least a source stream has to be for the library: something with `__anext__` (no `__aiter__`: the library pulls
+    events itself, it never loops over the source)."""
+
+    def __init__(self, events, sched):
+        self.events = list(events)
+        self.pulled = 0
+        self.sched = sched
+
+    __anext__ = Source.__anext__
+
+
 def build(spec, mode, salt, sub_kind, missing_resolver=False):
     from py_gql import build_schema
+    Source = BareSource if salt % 3 == 0 else globals()["Source"]   # noqa: N806
     eff = H.sdl_view(spec)
     schema = build_schema(GS.to_sdl(eff))
     wrap = SR.delivery_wrap(C8.modes_for(salt))
